@@ -679,7 +679,21 @@ func (s *State) havocRegion(r *Region, why string) {
 		return
 	}
 	if r.Whole {
-		s.heap[o.ID] = s.havocValue(cur, o.Type, "havoc."+why+"."+o.Name)
+		nv := s.havocValue(cur, o.Type, "havoc."+why+"."+o.Name)
+		// embedded arrays keep their shadow objects (which are havocked too)
+		if cs, ok := cur.(*StructV); ok {
+			if ns, ok := nv.(*StructV); ok && len(ns.Fields) == len(cs.Fields) {
+				for i, f := range cs.Fields {
+					if ev, isE := f.(*EmbedV); isE {
+						if av, isA := s.contents(ev.Obj).(*ArrayV); isA && av.Arr != nil {
+							s.heap[ev.Obj.ID] = &ArrayV{Arr: &ArrVar{Name: s.freshName("havoc." + why + ".embedded"), W: av.Arr.ElemW()}, N: av.N, Elem: av.Elem}
+						}
+						ns.Fields[i] = ev
+					}
+				}
+			}
+		}
+		s.heap[o.ID] = nv
 		return
 	}
 	sub := s.navigate(cur, r.Path)
